@@ -19,11 +19,11 @@ OUT = os.environ.get('PYVC_OUT', ROOT)          # where evidence/ and replays/ a
 
 def slug(s): return re.sub(r'[^A-Za-z0-9]+', '-', s).strip('-')[:90]
 
-def run_units(units, extra_args=(), timeout=3000):
+def run_units(units, extra_args=(), timeout=3000, extra_env=None):
     """run the verification units in parallel sub-processes; returns {unit: report}"""
     tmp = tempfile.mkdtemp(prefix='pyvc-'); procs = {}; out = {}
     try:
-        env = dict(os.environ); env['PYTHONPATH'] = ROOT; env.setdefault('PYVC_PROCS', str(max(4, 16 // max(1, len(units)))))
+        env = dict(os.environ); env['PYTHONPATH'] = ROOT; env.setdefault('PYVC_PROCS', str(max(4, 16 // max(1, len(units))))); env.update(extra_env or {})
         for u in units:
             f = os.path.join(tmp, u + '.json')
             procs[u] = (subprocess.Popen([PYVT, '-m', 'pyvc.unit', u, '--out', f, *extra_args], cwd=ROOT, env=env, stdout=subprocess.PIPE, stderr=subprocess.PIPE, text=True), f)
@@ -87,7 +87,7 @@ def main():
     for sup in spec.get('supplements', []):          # bounded native supplements run alongside the deductive units
         if sup.get('tier', 'quick') == 'thorough' and a.tier != 'thorough': continue
         sup_fut.append((sup, pool.submit(native, sup['driver'], dict(sup.get('args', {}), tier=a.tier, seed=seed), sup.get('timeout', 900), pid)))
-    reports = run_units(spec['units'], extra)
+    reports = run_units(spec['units'], extra, extra_env={'PYVC_CROSS': '1', 'PYVC_PATH_MODELS': '1'} if a.tier == 'thorough' else None)
     broken = []; undecided = []; obls = []; functions = []; trusted = []; dropped = set(); infos = {}
     for i in range(len(a.edit)):
         if not any(i < len(r.get('edits_applied', [])) and r['edits_applied'][i] for r in reports.values()): broken.append(f"--edit #{i + 1} matched no source text of the units of {pid}")
@@ -157,6 +157,40 @@ def main():
             lines.append(f"VIOLATION property={pid} replay={rel}"); nviol += 1
     proved = [o for o in goals if o['status'] == 'proved']
     n_known_refuted = sum(len(v) for n_, v in refuted.items() if any(kf.get('obligation') == n_ for kf in known))
+    # ---- thorough tier extras: second solver on every proved obligation, CPython cross-check of path models, engine self-mutation
+    thorough = {}
+    if a.tier == 'thorough' and not a.edit:
+        cross = collections.Counter(o['solver'].split('+cvc5:')[1] for o in goals if '+cvc5:' in o['solver'])
+        thorough['second_solver_cvc5'] = dict(cross)
+        if cross.get('sat'): broken.append(f"solver disagreement: cvc5 reports sat on {cross['sat']} obligations z3 proved")
+        # CPython cross-check: one model per feasible path of a pure function is concretised and the REAL function is run natively; results must agree
+        cc = {'paths': 0, 'agree': 0, 'disagreements': []}
+        for o in guards:
+            drv = (o.get('replay') or {}).get('driver'); w = o.get('witness')
+            if not w or drv != 'delay' or 'result' not in w: continue
+            nat = native(drv, w); cc['paths'] += 1
+            got = nat.get('result', 'raised' if 'raised' in nat else None)
+            if got == w['result'] and not nat.get('spec_failures'): cc['agree'] += 1
+            else: cc['disagreements'].append({'path': o['name'], 'model': w, 'native': nat})
+        thorough['cpython_cross_check'] = cc
+        if cc['disagreements']: broken.append(f"CPython cross-check: the symbolic result differs from the real function on {len(cc['disagreements'])} sampled paths (encoding of Python is wrong)")
+        # engine self-mutation (in-memory textual edits of the real source; nothing is written to /repo)
+        from specs.mutants import MUTANTS, EQUIVALENT
+        table = []
+        jobs = [(u, m, True) for u in spec['units'] for m in MUTANTS.get(u, [])] + [(u, m, False) for u in spec['units'] for m in EQUIVALENT.get(u, [])]
+        def run_mut(job):
+            u, (old_, new_, note), should_kill = job
+            r = run_units([u], ['--edit', old_ + '=>' + new_], extra_env={'PYVC_PROCS': '4'})[u]
+            if r['status'] != 'ok': return {'unit': u, 'edit': note, 'outcome': r['status'], 'detail': r.get('error'), 'expected': 'refuted' if should_kill else 'proved'}
+            if not all(r.get('edits_applied', [True])): return {'unit': u, 'edit': note, 'outcome': 'edit-not-applicable', 'expected': 'refuted' if should_kill else 'proved'}
+            ref = sorted({o['name'] for o in r['obligations'] if o['kind'] == 'goal' and o['status'] == 'refuted' and not any(kf.get('obligation') == o['name'] for kf in load_known() if kf.get('status') == 'open')})
+            mine = [n for n in ref if any(pid in o['props'] for o in r['obligations'] if o['name'] == n)]
+            return {'unit': u, 'edit': note, 'outcome': 'refuted' if ref else 'proved', 'refuted_for_this_property': bool(mine), 'first_refuted': (mine or ref or [None])[0], 'expected': 'refuted' if should_kill else 'proved'}
+        with _cf.ThreadPoolExecutor(4) as mp_: table = list(mp_.map(run_mut, jobs))
+        thorough['self_mutation'] = {'mutants': len([x for x in table if x['expected'] == 'refuted']), 'killed': len([x for x in table if x['expected'] == 'refuted' and x['outcome'] == 'refuted']),
+                                     'survivors': [x for x in table if x['expected'] == 'refuted' and x['outcome'] != 'refuted'],
+                                     'equivalent_edits_kept_green': len([x for x in table if x['expected'] == 'proved' and x['outcome'] == 'proved']),
+                                     'false_alarms_on_equivalent_edits': [x for x in table if x['expected'] == 'proved' and x['outcome'] != 'proved'], 'table': table}
     # ---- evidence
     samples = []
     seen = set()
@@ -175,7 +209,7 @@ def main():
                        'functions_under_contract': functions, 'unit_info': infos, 'samples': samples,
                        'vacuity': {'reachability_guards': len(guards), 'all_reachable': not vac},
                        'dropped_constructs': sorted(dropped), 'bounded_supplements': supplements,
-                       'known_findings_reported': nknown,
+                       'known_findings_reported': nknown, 'thorough': thorough,
                        'explanation': spec.get('explanation', '')},
           'assumptions': spec.get('assumptions', []) + ["Python semantics as encoded by pyvc (DESIGN 2.2): evaluation order, truthiness, exceptions, attribute reads are pure"],
           'not_decided': spec.get('not_decided', [])}
